@@ -8,7 +8,7 @@
 From Coq Require Import List ZArith NArith Bool Lia String.
 From Kardia Require Import Base.Int64 Base.GoSem.
 From Kardia Require Import Generated.C09Source.
-From Kardia Require Import Generated.C09Facts C09.Model.
+From Kardia Require Import Generated.C09Facts C09.Model C09.ProofsVM.
 Import ListNotations.
 Local Open Scope Z_scope.
 
@@ -163,8 +163,8 @@ Proof.
   - apply Hne. apply Z.div_small. nia.
 Qed.
 
-(** ** the whole tie as one statement (quoted by Properties.v) *)
-Definition C09_source_tie_statement : Prop :=
+(** ** the first tie as one statement (arithmetic and comparisons of the state transition) *)
+Definition C09_source_tie_core : Prop :=
   (forall n mn, mainchain_blockchain__StateTransition_preCheck__if_nonce_lt_st_msg_Nonce n mn = (n <? mn))
   /\ (forall n mn, mainchain_blockchain__StateTransition_preCheck__if_nonce_gt_st_msg_Nonce n mn = (mn <? n))
   /\ (forall b mg, mainchain_blockchain__StateTransition_buyGas__if_st_state_GetBalance_st_msg_From__Cmp_mgval_lt_0 (cmp_int b mg) = (b <? mg))
@@ -194,9 +194,9 @@ Definition C09_source_tie_statement : Prop :=
       /\ mainchain_blockchain__StateTransition_refundGas__if_refund_gt_st_state_GetRefund_atoms = ["refund : uint64"; "st.state.GetRefund() : uint64"]%string
       /\ mainchain_blockchain__StateTransition_gasUsed__ret_st_initialGas_minus_st_gas_atoms = ["st.initialGas : uint64"; "st.gas : uint64"]%string).
 
-Lemma C09_source_tie_proof : C09_source_tie_statement.
+Lemma C09_source_tie_core_proof : C09_source_tie_core.
 Proof.
-  unfold C09_source_tie_statement.
+  unfold C09_source_tie_core.
   split; [exact src_nonce_high|]. split; [exact src_nonce_low|]. split; [exact src_funds|].
   split; [exact src_gas0|]. split; [exact src_subgas_guard|]. split; [exact src_subgas|].
   split; [exact src_intrinsic_guard|]. split; [exact src_gas1|]. split; [exact src_transfer_guard|].
@@ -205,4 +205,395 @@ Proof.
   split; [exact src_ig_nz_overflow|]. split; [exact src_ig_gas1|]. split; [exact src_ig_z_overflow|].
   split; [exact src_ig_gas2|]. split; [exact src_SafeAdd|]. split; [exact src_SafeSub|].
   split; [exact src_SafeMul|]. repeat split; reflexivity.
+Qed.
+
+(* ====================================================================================== *)
+(** * Second revision of go2coq: bare-atom conditions, field stores, let-assignments, ++ and the
+      remaining anchored functions (ApplyTransaction, Process, commitBlock's loop, the proposal
+      builder, KVM.Call / CallCode / DelegateCall / StaticCall / create, Contract.UseGas, the
+      call-family instructions, CanTransfer). *)
+
+
+(** ** state transition: what is stored / re-read *)
+Lemma src_initial_gas g : mainchain_blockchain__StateTransition_buyGas__put_st_initialGas g = g.
+Proof. reflexivity. Qed.
+Lemma src_prechecked_nonce n : mainchain_blockchain__StateTransition_preCheck__let_nonce n = n.
+Proof. reflexivity. Qed.
+(** refundGas as a whole: [refund := gasUsed()/2; if refund > GetRefund() { refund = GetRefund() }]
+    is the model's capped refund *)
+Lemma src_refund_whole used sr : in_range U64 used ->
+  (let refund := mainchain_blockchain__StateTransition_refundGas__set_refund used in
+   if mainchain_blockchain__StateTransition_refundGas__if_refund_gt_st_state_GetRefund refund sr
+   then mainchain_blockchain__StateTransition_refundGas__let_refund sr else refund)
+  = (let refund0 := used / refund_quotient in if sr <? refund0 then sr else refund0).
+Proof.
+  intros H. cbn zeta. rewrite (src_refund0 used H), src_refund_cap. reflexivity.
+Qed.
+(** ApplyTransaction: *usedGas += result.UsedGas; receipt.GasUsed = result.UsedGas *)
+Lemma src_cumulative cum used : mainchain_blockchain__ApplyTransaction__assign_op cum used = wrapu64 (cum + used).
+Proof. reflexivity. Qed.
+Lemma src_receipt_used u : mainchain_blockchain__ApplyTransaction__put_receipt_GasUsed u = u.
+Proof. reflexivity. Qed.
+
+(** ** the three loops over ApplyTransaction.  commitBlock and the proposal builder: the pool after a
+    rejected transaction is the pool read before ApplyTransaction *)
+Lemma src_commit_pool_restored pool : in_range U64 pool ->
+  mainchain_blockchain__BlockOperations_commitBlock__let_assign
+    (mainchain_blockchain__BlockOperations_commitBlock__let_gasBefore pool) = pool.
+Proof. intros H. apply (wrap_id U64 pool H). Qed.
+Lemma src_proposal_pool_restored pool : in_range U64 pool ->
+  mainchain_blockchain__proposalBlock_commitTransaction__let_assign
+    (mainchain_blockchain__proposalBlock_commitTransaction__let_gasBefore pool) = pool.
+Proof. intros H. apply (wrap_id U64 pool H). Qed.
+(** ... which is what [commit_step] / [propose_step] do with the pool *)
+Lemma src_commit_step_pool W run ca e b m er sx px :
+  b_panic b = false -> in_range U64 (b_pool b) ->
+  apply_transaction W run ca e (b_state b) (b_pool b) m = Rejected er sx px ->
+  b_pool (commit_step W run ca e b m)
+    = mainchain_blockchain__BlockOperations_commitBlock__let_assign
+        (mainchain_blockchain__BlockOperations_commitBlock__let_gasBefore (b_pool b))
+  /\ b_pool (propose_step W run ca e b m)
+    = mainchain_blockchain__proposalBlock_commitTransaction__let_assign
+        (mainchain_blockchain__proposalBlock_commitTransaction__let_gasBefore (b_pool b)).
+Proof.
+  intros Hp Hr H. rewrite src_commit_pool_restored, src_proposal_pool_restored by exact Hr.
+  unfold commit_step, propose_step. rewrite Hp, H. split; reflexivity.
+Qed.
+(** the error tests of the loops are the bare [err != nil] (a negated or different test renames
+    or redefines these) *)
+Lemma src_loop_error_tests x :
+  mainchain_blockchain__BlockOperations_commitBlock__if_err_ne_nil_5 x = x
+  /\ mainchain_blockchain__proposalBlock_commitTransaction__if_err_ne_nil x = x
+  /\ mainchain_blockchain__StateProcessor_Process__if_err_ne_nil x = x
+  /\ mainchain_blockchain__ApplyTransaction__if_err_ne_nil x = x
+  /\ mainchain_blockchain__ApplyTransaction__if_err_ne_nil_2 x = x
+  /\ mainchain_blockchain__StateTransition_buyGas__if_err_ne_nil x = x
+  /\ mainchain_blockchain__StateTransition_TransitionDb__if_err_ne_nil x = x
+  /\ mainchain_blockchain__StateTransition_TransitionDb__if_err_ne_nil_2 x = x
+  /\ mainchain_blockchain__StateTransition_preCheck__if_st_msg_CheckNonce x = x
+  /\ mainchain_blockchain__StateTransition_TransitionDb__if_contractCreation x = x.
+Proof. repeat split; reflexivity. Qed.
+(** the hard-fork branch of commitBlock is taken exactly at the Galaxias height *)
+Lemma src_galaxias_branch set g h :
+  mainchain_blockchain__BlockOperations_commitBlock__if_bo_blockchain_chainConfig_GalaxiasBlock_ne_nil_and_mul_bo_bl_57c3e730 set g h
+  = (set && (g =? h))%bool.
+Proof. reflexivity. Qed.
+(** the proposal builder stops when less than TxGas is left in the pool *)
+Lemma src_proposal_break pool :
+  mainchain_blockchain__proposalBlock_commitTransactions__if_pb_gasPool_Gas_lt_configs_TxGas pool = (pool <? tx_gas)
+  /\ mainchain_blockchain__proposalBlock_commitTransactions__if_pb_gasPool_Gas_lt_configs_TxGas_2 pool = (pool <? tx_gas).
+Proof. split; reflexivity. Qed.
+
+(** ** the protocol constants as the type checker evaluated them in the translated expressions
+    (a changed constant re-opens these) *)
+Lemma src_constants :
+  mainchain_tx_pool__IntrinsicGas__let_gas = tx_gas_contract_creation /\ tx_gas_contract_creation = 53000
+  /\ mainchain_tx_pool__IntrinsicGas__let_gas_2 = tx_gas /\ tx_gas = 21000
+  /\ mainchain_tx_pool__IntrinsicGas__let_gas_3 = tx_gas_legacy /\ tx_gas_legacy = 29000
+  /\ mainchain_tx_pool__IntrinsicGas__let_nonZeroGas = tx_data_non_zero_gas /\ tx_data_non_zero_gas = 68
+  /\ tx_data_zero_gas = 4 /\ create_data_gas = 200 /\ max_code_size = 39231 /\ call_create_depth = 1024
+  /\ refund_quotient = 2.
+Proof. repeat split; reflexivity. Qed.
+
+(** ** mainchain/kvm.CanTransfer *)
+Lemma src_can_transfer s a v :
+  mainchain_kvm__CanTransfer__ret_db_GetBalance_addr__Cmp_amount_ge_0 (cmp_int (bal s a) v) = can_transfer s a v.
+Proof.
+  unfold mainchain_kvm__CanTransfer__ret_db_GetBalance_addr__Cmp_amount_ge_0, can_transfer, cmp_int, Z.geb, Z.ltb.
+  destruct (bal s a ?= v); reflexivity.
+Qed.
+
+(** ** KVM.Call *)
+Lemma src_call_depth d : kvm__KVM_Call__if_kvm_depth_gt_int_configs_CallCreateDepth d = (call_create_depth <? d).
+Proof. unfold kvm__KVM_Call__if_kvm_depth_gt_int_configs_CallCreateDepth. apply Z.gtb_ltb. Qed.
+(** at depth 0 (where the model's [call] / [create] run) neither the depth limit nor NoRecursion
+    can fire, whatever the configuration *)
+Lemma src_depth0 nr :
+  kvm__KVM_Call__if_kvm_depth_gt_int_configs_CallCreateDepth 0 = false
+  /\ kvm__KVM_create__if_kvm_depth_gt_int_configs_CallCreateDepth 0 = false
+  /\ kvm__KVM_Call__if_kvm_vmConfig_NoRecursion_and_kvm_depth_gt_0 nr 0 = false
+  /\ kvm__KVM_create__if_kvm_vmConfig_NoRecursion_and_kvm_depth_gt_0 nr 0 = false.
+Proof. repeat split; try reflexivity; destruct nr; reflexivity. Qed.
+(** the four other entry points have the very same depth test *)
+Lemma src_depth_same d :
+  kvm__KVM_CallCode__if_kvm_depth_gt_int_configs_CallCreateDepth d = kvm__KVM_Call__if_kvm_depth_gt_int_configs_CallCreateDepth d
+  /\ kvm__KVM_DelegateCall__if_kvm_depth_gt_int_configs_CallCreateDepth d = kvm__KVM_Call__if_kvm_depth_gt_int_configs_CallCreateDepth d
+  /\ kvm__KVM_StaticCall__if_kvm_depth_gt_int_configs_CallCreateDepth d = kvm__KVM_Call__if_kvm_depth_gt_int_configs_CallCreateDepth d
+  /\ kvm__KVM_create__if_kvm_depth_gt_int_configs_CallCreateDepth d = kvm__KVM_Call__if_kvm_depth_gt_int_configs_CallCreateDepth d.
+Proof. repeat split; reflexivity. Qed.
+(** [value.Sign() != 0 && !CanTransfer(...)] is the model's first test of [call] *)
+Lemma src_call_balance s caller v :
+  kvm__KVM_Call__if_value_Sign_ne_0_and_not_kvm_BlockContext_CanTransfer_kvm_Sta_a9cbbd5d (sign_int v) (can_transfer s caller v)
+  = (negb (v =? 0) && negb (can_transfer s caller v))%bool.
+Proof.
+  unfold kvm__KVM_Call__if_value_Sign_ne_0_and_not_kvm_BlockContext_CanTransfer_kvm_Sta_a9cbbd5d, go_neqb, sign_int, cmp_int.
+  f_equal. f_equal. destruct (Z.eqb_spec v 0) as [->|Hne]; [reflexivity|].
+  destruct (v ?= 0) eqn:Hc; try reflexivity. apply Z.compare_eq in Hc. contradiction.
+Qed.
+(** calling an account that does not exist, is not a precompile, with no value: nothing happens *)
+Lemma src_call_absent ex pre v :
+  kvm__KVM_Call__if_not_kvm_StateDB_Exist_addr ex = negb ex
+  /\ kvm__KVM_Call__if_not_isPrecompile_and_value_Sign_eq_0 pre (sign_int v) = (negb pre && (v =? 0))%bool.
+Proof.
+  split; [reflexivity|]. unfold kvm__KVM_Call__if_not_isPrecompile_and_value_Sign_eq_0, sign_int, cmp_int. f_equal.
+  destruct (Z.eqb_spec v 0) as [->|Hne]; [reflexivity|].
+  destruct (v ?= 0) eqn:Hc; try reflexivity. apply Z.compare_eq in Hc. contradiction.
+Qed.
+(** code of length 0 is not run *)
+Lemma src_call_nocode (code : list N) :
+  kvm__KVM_Call__if_len_code_eq_0 (Z.of_nat (List.length code)) = match code with [] => true | _ => false end.
+Proof. destruct code; reflexivity. Qed.
+(** on an error other than ErrExecutionReverted the gas is set to the constant 0, in all four call
+    entry points *)
+Lemma src_failed_call_gas :
+  kvm__KVM_Call__let_gas = 0 /\ kvm__KVM_CallCode__let_gas = 0 /\ kvm__KVM_DelegateCall__let_gas = 0
+  /\ kvm__KVM_StaticCall__let_gas = 0.
+Proof. repeat split; reflexivity. Qed.
+Lemma src_call_error_tests x :
+  kvm__KVM_Call__if_err_ne_nil x = x /\ kvm__KVM_Call__if_err_ne_ErrExecutionReverted x = x
+  /\ kvm__KVM_CallCode__if_err_ne_nil x = x /\ kvm__KVM_CallCode__if_err_ne_ErrExecutionReverted x = x
+  /\ kvm__KVM_DelegateCall__if_err_ne_nil x = x /\ kvm__KVM_DelegateCall__if_err_ne_ErrExecutionReverted x = x
+  /\ kvm__KVM_StaticCall__if_err_ne_nil x = x /\ kvm__KVM_StaticCall__if_err_ne_ErrExecutionReverted x = x
+  /\ kvm__KVM_create__if_err_ne_ErrExecutionReverted x = x /\ kvm__KVM_Call__if_isPrecompile x = x
+  /\ kvm__KVM_create__if_contract_UseGas_createDataGas x = x.
+Proof. repeat split; reflexivity. Qed.
+Lemma src_callcode_balance can :
+  kvm__KVM_CallCode__if_not_kvm_CanTransfer_kvm_StateDB_caller_Address_value can = negb can.
+Proof. reflexivity. Qed.
+
+(** ** KVM.create *)
+Lemma src_create_balance s caller v :
+  kvm__KVM_create__if_not_kvm_CanTransfer_kvm_StateDB_caller_Address_value (can_transfer s caller v)
+  = negb (can_transfer s caller v).
+Proof. reflexivity. Qed.
+(** the nonce bump of the creator: [cr_s0] *)
+Lemma src_create_nonce s caller :
+  cr_s0 wrapu64 s caller
+  = set_nonce s caller (kvm__KVM_create__arg_nonce_plus_1 (kvm__KVM_create__let_nonce (nonce s caller))).
+Proof. reflexivity. Qed.
+(** address collision: nonce != 0 || (hash != {} && hash != emptyCodeHash); the model's code
+    identity 0 stands for "no code hash or the hash of the empty code" *)
+Lemma src_create_collision n h1 h2 :
+  kvm__KVM_create__if_kvm_StateDB_GetNonce_address_ne_0_or_contractHash_ne_common__1d664e2b n h1 h2
+  = (negb (n =? 0) || (h1 && h2))%bool.
+Proof. reflexivity. Qed.
+Lemma src_create_collision_model s address :
+  kvm__KVM_create__if_kvm_StateDB_GetNonce_address_ne_0_or_contractHash_ne_common__1d664e2b
+    (nonce s address) (negb (N.eqb (code s address) 0)) (negb (N.eqb (code s address) 0))
+  = (negb (nonce s address =? 0) || negb (N.eqb (code s address) 0))%bool.
+Proof. rewrite src_create_collision. destruct (N.eqb (code s address) 0); reflexivity. Qed.
+Lemma src_max_code len : kvm__KVM_create__set_maxCodeSizeExceeded len = (max_code_size <? len).
+Proof. unfold kvm__KVM_create__set_maxCodeSizeExceeded. apply Z.gtb_ltb. Qed.
+Lemma src_deposit_guard e x : kvm__KVM_create__if_err_eq_nil_and_not_maxCodeSizeExceeded e x = (e && negb x)%bool.
+Proof. reflexivity. Qed.
+Lemma src_deposit_gas len : in_range U64 len ->
+  kvm__KVM_create__set_createDataGas len = wrapu64 (len * create_data_gas).
+Proof. intros H. unfold kvm__KVM_create__set_createDataGas, go_mul, go_conv. rewrite (wrap_id U64 len H). reflexivity. Qed.
+(** Contract.UseGas: refuses when the gas left is below the charge — the model's [cdg <=? g] is the
+    negation — and subtracts otherwise *)
+Lemma src_use_gas g c :
+  kvm__Contract_UseGas__if_c_Gas_lt_gas g c = negb (c <=? g).
+Proof. unfold kvm__Contract_UseGas__if_c_Gas_lt_gas. rewrite Z.leb_antisym, negb_involutive. reflexivity. Qed.
+Lemma src_use_gas_sub g c : in_range U64 g -> 0 <= c <= g -> kvm__Contract_UseGas__set_Gas_op g c = g - c.
+Proof. intros Hg Hc. unfold kvm__Contract_UseGas__set_Gas_op, go_sub. apply wrap_id. unfold in_range in *. lia. Qed.
+Lemma src_create_revert_guard x e :
+  kvm__KVM_create__if_maxCodeSizeExceeded_or_err_ne_nil x e = (x || e)%bool
+  /\ kvm__KVM_create__if_maxCodeSizeExceeded_and_err_eq_nil x e = (x && e)%bool.
+Proof. split; reflexivity. Qed.
+(** the three decisions of [create] after the interpreter returned, on the model's own terms *)
+Lemma src_create_decisions (err err1 : vm_err) (retlen g : Z) : in_range U64 retlen ->
+  let exceeded := max_code_size <? retlen in
+  (vm_err_eqb err VOk && negb exceeded)%bool
+    = kvm__KVM_create__if_err_eq_nil_and_not_maxCodeSizeExceeded (vm_err_eqb err VOk) (kvm__KVM_create__set_maxCodeSizeExceeded retlen)
+  /\ (wrapu64 (retlen * create_data_gas) <=? g)
+    = negb (kvm__Contract_UseGas__if_c_Gas_lt_gas g (kvm__KVM_create__set_createDataGas retlen))
+  /\ (exceeded || negb (vm_err_eqb err1 VOk))%bool
+    = kvm__KVM_create__if_maxCodeSizeExceeded_or_err_ne_nil (kvm__KVM_create__set_maxCodeSizeExceeded retlen) (negb (vm_err_eqb err1 VOk))
+  /\ (exceeded && vm_err_eqb err1 VOk)%bool
+    = kvm__KVM_create__if_maxCodeSizeExceeded_and_err_eq_nil (kvm__KVM_create__set_maxCodeSizeExceeded retlen) (vm_err_eqb err1 VOk).
+Proof.
+  intros H. cbn zeta. split; [|split; [|split]].
+  - rewrite src_deposit_guard, src_max_code. reflexivity.
+  - rewrite (src_deposit_gas retlen H), src_use_gas, negb_involutive. reflexivity.
+  - rewrite src_max_code. reflexivity.
+  - rewrite src_max_code. reflexivity.
+Qed.
+
+(** ** the call-family instructions (inside the interpreter, i.e. inside [run]): the stipend, the
+    gas handed back to the caller, "all but one 64th" for CREATE *)
+Lemma src_op_gas g r :
+  kvm__opCall__set_gas_op g = wrapu64 (g + 2300) /\ kvm__opCallCode__set_gas_op g = wrapu64 (g + 2300)
+  /\ kvm__opCall__set_Gas_op g r = wrapu64 (g + r) /\ kvm__opCallCode__set_Gas_op g r = wrapu64 (g + r)
+  /\ kvm__opDelegateCall__set_Gas_op g r = wrapu64 (g + r) /\ kvm__opStaticCall__set_Gas_op g r = wrapu64 (g + r)
+  /\ kvm__opCreate__set_Gas_op g r = wrapu64 (g + r) /\ kvm__opCreate2__set_Gas_op g r = wrapu64 (g + r).
+Proof. repeat split; reflexivity. Qed.
+Lemma src_op_create_gas g : in_range U64 g -> kvm__opCreate__set_gas_op g = g - g / 64 /\ 0 <= g - g / 64 <= g.
+Proof.
+  intros H. unfold kvm__opCreate__set_gas_op, go_sub, go_quot. unfold in_range in H.
+  rewrite Z.quot_div_nonneg by lia.
+  assert (Hq : 0 <= g / 64 <= g) by (split; [apply Z.div_pos; lia|apply Z.div_le_upper_bound; lia]).
+  rewrite (wrap_id U64 (g / 64)) by (unfold in_range; lia).
+  rewrite wrap_id by (unfold in_range; lia). lia.
+Qed.
+
+(** ** what is compared / stored, not only how (atoms) *)
+Lemma src_atoms_ext :
+  mainchain_blockchain__StateTransition_buyGas__put_st_initialGas_atoms = ["st.msg.Gas() : uint64"]%string
+  /\ mainchain_blockchain__StateTransition_preCheck__let_nonce_atoms = ["st.state.GetNonce(st.msg.From()) : uint64"]%string
+  /\ mainchain_blockchain__StateTransition_preCheck__if_st_msg_CheckNonce_atoms = ["st.msg.CheckNonce() : bool"]%string
+  /\ mainchain_blockchain__StateTransition_refundGas__let_refund_atoms = ["st.state.GetRefund() : uint64"]%string
+  /\ mainchain_blockchain__StateTransition_buyGas__set_gas_op_atoms = ["st.gas : uint64"; "st.msg.Gas() : uint64"]%string
+  /\ mainchain_blockchain__StateTransition_TransitionDb__let_isGalaxias_atoms = ["st.vm.ChainConfig().IsGalaxias(&height) : bool"]%string
+  /\ mainchain_blockchain__ApplyTransaction__assign_op_atoms = ["*usedGas : uint64"; "result.UsedGas : uint64"]%string
+  /\ mainchain_blockchain__ApplyTransaction__put_receipt_GasUsed_atoms = ["result.UsedGas : uint64"]%string
+  /\ mainchain_blockchain__BlockOperations_commitBlock__let_gasBefore_atoms = ["gasPool.Gas() : uint64"]%string
+  /\ mainchain_blockchain__BlockOperations_commitBlock__let_assign_atoms = ["gasBefore : uint64"]%string
+  /\ mainchain_blockchain__BlockOperations_commitBlock__if_err_ne_nil_5_atoms = ["err != nil : untyped bool"]%string
+  /\ mainchain_blockchain__proposalBlock_commitTransaction__let_gasBefore_atoms = ["pb.gasPool.Gas() : uint64"]%string
+  /\ mainchain_blockchain__proposalBlock_commitTransaction__let_assign_atoms = ["gasBefore : uint64"]%string
+  /\ mainchain_blockchain__proposalBlock_commitTransaction__if_err_ne_nil_atoms = ["err != nil : untyped bool"]%string
+  /\ mainchain_blockchain__StateProcessor_Process__if_err_ne_nil_atoms = ["err != nil : untyped bool"]%string
+  /\ mainchain_blockchain__proposalBlock_commitTransactions__if_pb_gasPool_Gas_lt_configs_TxGas_atoms = ["pb.gasPool.Gas() : uint64"]%string
+  /\ mainchain_kvm__CanTransfer__ret_db_GetBalance_addr__Cmp_amount_ge_0_atoms = ["db.GetBalance(addr).Cmp(amount) : int"]%string
+  /\ kvm__KVM_Call__if_kvm_depth_gt_int_configs_CallCreateDepth_atoms = ["kvm.depth : int"]%string
+  /\ kvm__KVM_Call__if_value_Sign_ne_0_and_not_kvm_BlockContext_CanTransfer_kvm_Sta_a9cbbd5d_atoms
+     = ["value.Sign() : int"; "kvm.BlockContext.CanTransfer(kvm.StateDB, caller.Address(), value) : bool"]%string
+  /\ kvm__KVM_Call__if_not_kvm_StateDB_Exist_addr_atoms = ["kvm.StateDB.Exist(addr) : bool"]%string
+  /\ kvm__KVM_Call__if_not_isPrecompile_and_value_Sign_eq_0_atoms = ["isPrecompile : bool"; "value.Sign() : int"]%string
+  /\ kvm__KVM_Call__if_len_code_eq_0_atoms = ["len(code) : int"]%string
+  /\ kvm__KVM_Call__if_err_ne_ErrExecutionReverted_atoms = ["err != ErrExecutionReverted : untyped bool"]%string
+  /\ kvm__KVM_create__if_not_kvm_CanTransfer_kvm_StateDB_caller_Address_value_atoms = ["kvm.CanTransfer(kvm.StateDB, caller.Address(), value) : bool"]%string
+  /\ kvm__KVM_create__let_nonce_atoms = ["kvm.StateDB.GetNonce(caller.Address()) : uint64"]%string
+  /\ kvm__KVM_create__if_kvm_StateDB_GetNonce_address_ne_0_or_contractHash_ne_common__1d664e2b_atoms
+     = ["kvm.StateDB.GetNonce(address) : uint64"; "contractHash != (common.Hash{}) : untyped bool"; "contractHash != emptyCodeHash : untyped bool"]%string
+  /\ kvm__KVM_create__set_maxCodeSizeExceeded_atoms = ["len(ret) : int"]%string
+  /\ kvm__KVM_create__set_createDataGas_atoms = ["len(ret) : int"]%string
+  /\ kvm__KVM_create__if_contract_UseGas_createDataGas_atoms = ["contract.UseGas(createDataGas) : bool"]%string
+  /\ kvm__KVM_create__if_err_eq_nil_and_not_maxCodeSizeExceeded_atoms = ["err == nil : bool"; "maxCodeSizeExceeded : bool"]%string
+  /\ kvm__Contract_UseGas__if_c_Gas_lt_gas_atoms = ["c.Gas : uint64"; "gas : uint64"]%string
+  /\ kvm__opCall__set_Gas_op_atoms = ["callContext.Contract.Gas : uint64"; "returnGas : uint64"]%string
+  /\ kvm__opCreate2__set_Gas_op_atoms = ["callContext.Contract.Gas : uint64"; "returnGas : uint64"]%string
+  /\ kvm__opCreate__set_gas_op_atoms = ["gas : uint64"]%string.
+Proof. repeat split; reflexivity. Qed.
+
+Definition C09_source_tie_ext : Prop :=
+  (forall g, mainchain_blockchain__StateTransition_buyGas__put_st_initialGas g = g)
+  /\ (forall n, mainchain_blockchain__StateTransition_preCheck__let_nonce n = n)
+  /\ (forall used sr, in_range U64 used ->
+        (let refund := mainchain_blockchain__StateTransition_refundGas__set_refund used in
+         if mainchain_blockchain__StateTransition_refundGas__if_refund_gt_st_state_GetRefund refund sr
+         then mainchain_blockchain__StateTransition_refundGas__let_refund sr else refund)
+        = (let refund0 := used / refund_quotient in if sr <? refund0 then sr else refund0))
+  /\ (forall cum used, mainchain_blockchain__ApplyTransaction__assign_op cum used = wrapu64 (cum + used))
+  /\ (forall u, mainchain_blockchain__ApplyTransaction__put_receipt_GasUsed u = u)
+  /\ (forall W run ca e b m er sx px, b_panic b = false -> in_range U64 (b_pool b) ->
+        apply_transaction W run ca e (b_state b) (b_pool b) m = Rejected er sx px ->
+        b_pool (commit_step W run ca e b m)
+          = mainchain_blockchain__BlockOperations_commitBlock__let_assign
+              (mainchain_blockchain__BlockOperations_commitBlock__let_gasBefore (b_pool b))
+        /\ b_pool (propose_step W run ca e b m)
+          = mainchain_blockchain__proposalBlock_commitTransaction__let_assign
+              (mainchain_blockchain__proposalBlock_commitTransaction__let_gasBefore (b_pool b)))
+  /\ (forall pool, in_range U64 pool ->
+        mainchain_blockchain__BlockOperations_commitBlock__let_assign
+          (mainchain_blockchain__BlockOperations_commitBlock__let_gasBefore pool) = pool)
+  /\ (forall pool, in_range U64 pool ->
+        mainchain_blockchain__proposalBlock_commitTransaction__let_assign
+          (mainchain_blockchain__proposalBlock_commitTransaction__let_gasBefore pool) = pool)
+  /\ (forall x, mainchain_blockchain__BlockOperations_commitBlock__if_err_ne_nil_5 x = x
+                /\ mainchain_blockchain__proposalBlock_commitTransaction__if_err_ne_nil x = x
+                /\ mainchain_blockchain__StateProcessor_Process__if_err_ne_nil x = x
+                /\ mainchain_blockchain__ApplyTransaction__if_err_ne_nil x = x
+                /\ mainchain_blockchain__ApplyTransaction__if_err_ne_nil_2 x = x
+                /\ mainchain_blockchain__StateTransition_buyGas__if_err_ne_nil x = x
+                /\ mainchain_blockchain__StateTransition_TransitionDb__if_err_ne_nil x = x
+                /\ mainchain_blockchain__StateTransition_TransitionDb__if_err_ne_nil_2 x = x
+                /\ mainchain_blockchain__StateTransition_preCheck__if_st_msg_CheckNonce x = x
+                /\ mainchain_blockchain__StateTransition_TransitionDb__if_contractCreation x = x)
+  /\ (forall set g h, mainchain_blockchain__BlockOperations_commitBlock__if_bo_blockchain_chainConfig_GalaxiasBlock_ne_nil_and_mul_bo_bl_57c3e730 set g h = (set && (g =? h))%bool)
+  /\ (forall pool, mainchain_blockchain__proposalBlock_commitTransactions__if_pb_gasPool_Gas_lt_configs_TxGas pool = (pool <? tx_gas)
+                   /\ mainchain_blockchain__proposalBlock_commitTransactions__if_pb_gasPool_Gas_lt_configs_TxGas_2 pool = (pool <? tx_gas))
+  /\ (mainchain_tx_pool__IntrinsicGas__let_gas = tx_gas_contract_creation /\ tx_gas_contract_creation = 53000
+      /\ mainchain_tx_pool__IntrinsicGas__let_gas_2 = tx_gas /\ tx_gas = 21000
+      /\ mainchain_tx_pool__IntrinsicGas__let_gas_3 = tx_gas_legacy /\ tx_gas_legacy = 29000
+      /\ mainchain_tx_pool__IntrinsicGas__let_nonZeroGas = tx_data_non_zero_gas /\ tx_data_non_zero_gas = 68
+      /\ tx_data_zero_gas = 4 /\ create_data_gas = 200 /\ max_code_size = 39231 /\ call_create_depth = 1024
+      /\ refund_quotient = 2)
+  /\ (forall s a v, mainchain_kvm__CanTransfer__ret_db_GetBalance_addr__Cmp_amount_ge_0 (cmp_int (bal s a) v) = can_transfer s a v)
+  /\ (forall d, kvm__KVM_Call__if_kvm_depth_gt_int_configs_CallCreateDepth d = (call_create_depth <? d))
+  /\ (forall nr, kvm__KVM_Call__if_kvm_depth_gt_int_configs_CallCreateDepth 0 = false
+                 /\ kvm__KVM_create__if_kvm_depth_gt_int_configs_CallCreateDepth 0 = false
+                 /\ kvm__KVM_Call__if_kvm_vmConfig_NoRecursion_and_kvm_depth_gt_0 nr 0 = false
+                 /\ kvm__KVM_create__if_kvm_vmConfig_NoRecursion_and_kvm_depth_gt_0 nr 0 = false)
+  /\ (forall d, kvm__KVM_CallCode__if_kvm_depth_gt_int_configs_CallCreateDepth d = kvm__KVM_Call__if_kvm_depth_gt_int_configs_CallCreateDepth d
+                /\ kvm__KVM_DelegateCall__if_kvm_depth_gt_int_configs_CallCreateDepth d = kvm__KVM_Call__if_kvm_depth_gt_int_configs_CallCreateDepth d
+                /\ kvm__KVM_StaticCall__if_kvm_depth_gt_int_configs_CallCreateDepth d = kvm__KVM_Call__if_kvm_depth_gt_int_configs_CallCreateDepth d
+                /\ kvm__KVM_create__if_kvm_depth_gt_int_configs_CallCreateDepth d = kvm__KVM_Call__if_kvm_depth_gt_int_configs_CallCreateDepth d)
+  /\ (forall s caller v,
+        kvm__KVM_Call__if_value_Sign_ne_0_and_not_kvm_BlockContext_CanTransfer_kvm_Sta_a9cbbd5d (sign_int v) (can_transfer s caller v)
+        = (negb (v =? 0) && negb (can_transfer s caller v))%bool)
+  /\ (forall ex pre v, kvm__KVM_Call__if_not_kvm_StateDB_Exist_addr ex = negb ex
+        /\ kvm__KVM_Call__if_not_isPrecompile_and_value_Sign_eq_0 pre (sign_int v) = (negb pre && (v =? 0))%bool)
+  /\ (forall code : list N, kvm__KVM_Call__if_len_code_eq_0 (Z.of_nat (List.length code)) = match code with [] => true | _ => false end)
+  /\ (kvm__KVM_Call__let_gas = 0 /\ kvm__KVM_CallCode__let_gas = 0 /\ kvm__KVM_DelegateCall__let_gas = 0 /\ kvm__KVM_StaticCall__let_gas = 0)
+  /\ (forall x, kvm__KVM_Call__if_err_ne_nil x = x /\ kvm__KVM_Call__if_err_ne_ErrExecutionReverted x = x
+        /\ kvm__KVM_CallCode__if_err_ne_nil x = x /\ kvm__KVM_CallCode__if_err_ne_ErrExecutionReverted x = x
+        /\ kvm__KVM_DelegateCall__if_err_ne_nil x = x /\ kvm__KVM_DelegateCall__if_err_ne_ErrExecutionReverted x = x
+        /\ kvm__KVM_StaticCall__if_err_ne_nil x = x /\ kvm__KVM_StaticCall__if_err_ne_ErrExecutionReverted x = x
+        /\ kvm__KVM_create__if_err_ne_ErrExecutionReverted x = x /\ kvm__KVM_Call__if_isPrecompile x = x
+        /\ kvm__KVM_create__if_contract_UseGas_createDataGas x = x)
+  /\ (forall can, kvm__KVM_CallCode__if_not_kvm_CanTransfer_kvm_StateDB_caller_Address_value can = negb can)
+  /\ (forall s caller v, kvm__KVM_create__if_not_kvm_CanTransfer_kvm_StateDB_caller_Address_value (can_transfer s caller v) = negb (can_transfer s caller v))
+  /\ (forall s caller, cr_s0 wrapu64 s caller
+        = set_nonce s caller (kvm__KVM_create__arg_nonce_plus_1 (kvm__KVM_create__let_nonce (nonce s caller))))
+  /\ (forall s address,
+        kvm__KVM_create__if_kvm_StateDB_GetNonce_address_ne_0_or_contractHash_ne_common__1d664e2b
+          (nonce s address) (negb (N.eqb (code s address) 0)) (negb (N.eqb (code s address) 0))
+        = (negb (nonce s address =? 0) || negb (N.eqb (code s address) 0))%bool)
+  /\ (forall (err err1 : vm_err) (retlen g : Z), in_range U64 retlen ->
+        let exceeded := max_code_size <? retlen in
+        (vm_err_eqb err VOk && negb exceeded)%bool
+          = kvm__KVM_create__if_err_eq_nil_and_not_maxCodeSizeExceeded (vm_err_eqb err VOk) (kvm__KVM_create__set_maxCodeSizeExceeded retlen)
+        /\ (wrapu64 (retlen * create_data_gas) <=? g)
+          = negb (kvm__Contract_UseGas__if_c_Gas_lt_gas g (kvm__KVM_create__set_createDataGas retlen))
+        /\ (exceeded || negb (vm_err_eqb err1 VOk))%bool
+          = kvm__KVM_create__if_maxCodeSizeExceeded_or_err_ne_nil (kvm__KVM_create__set_maxCodeSizeExceeded retlen) (negb (vm_err_eqb err1 VOk))
+        /\ (exceeded && vm_err_eqb err1 VOk)%bool
+          = kvm__KVM_create__if_maxCodeSizeExceeded_and_err_eq_nil (kvm__KVM_create__set_maxCodeSizeExceeded retlen) (vm_err_eqb err1 VOk))
+  /\ (forall g c, in_range U64 g -> 0 <= c <= g -> kvm__Contract_UseGas__set_Gas_op g c = g - c)
+  /\ (forall g r, kvm__opCall__set_gas_op g = wrapu64 (g + 2300) /\ kvm__opCallCode__set_gas_op g = wrapu64 (g + 2300)
+        /\ kvm__opCall__set_Gas_op g r = wrapu64 (g + r) /\ kvm__opCallCode__set_Gas_op g r = wrapu64 (g + r)
+        /\ kvm__opDelegateCall__set_Gas_op g r = wrapu64 (g + r) /\ kvm__opStaticCall__set_Gas_op g r = wrapu64 (g + r)
+        /\ kvm__opCreate__set_Gas_op g r = wrapu64 (g + r) /\ kvm__opCreate2__set_Gas_op g r = wrapu64 (g + r))
+  /\ (forall g, in_range U64 g -> kvm__opCreate__set_gas_op g = g - g / 64 /\ 0 <= g - g / 64 <= g).
+
+Lemma C09_source_tie_ext_proof : C09_source_tie_ext.
+Proof.
+  unfold C09_source_tie_ext.
+  split; [exact src_initial_gas|]. split; [exact src_prechecked_nonce|]. split; [exact src_refund_whole|].
+  split; [exact src_cumulative|]. split; [exact src_receipt_used|]. split; [exact src_commit_step_pool|].
+  split; [exact src_commit_pool_restored|]. split; [exact src_proposal_pool_restored|].
+  split; [exact src_loop_error_tests|]. split; [exact src_galaxias_branch|]. split; [exact src_proposal_break|].
+  split; [exact src_constants|]. split; [exact src_can_transfer|]. split; [exact src_call_depth|].
+  split; [exact src_depth0|]. split; [exact src_depth_same|]. split; [exact src_call_balance|].
+  split; [exact src_call_absent|]. split; [exact src_call_nocode|]. split; [exact src_failed_call_gas|].
+  split; [exact src_call_error_tests|]. split; [exact src_callcode_balance|]. split; [exact src_create_balance|].
+  split; [exact src_create_nonce|]. split; [exact src_create_collision_model|]. split; [exact src_create_decisions|].
+  split; [exact src_use_gas_sub|]. split; [exact src_op_gas|]. exact src_op_create_gas.
+Qed.
+
+(** ** the whole tie as one statement (quoted by Properties.v) *)
+Definition C09_source_tie_statement : Prop :=
+  C09_source_tie_core /\ C09_source_tie_ext
+  /\ (mainchain_blockchain__StateTransition_buyGas__put_st_initialGas_atoms = ["st.msg.Gas() : uint64"]%string
+      /\ mainchain_blockchain__BlockOperations_commitBlock__let_gasBefore_atoms = ["gasPool.Gas() : uint64"]%string
+      /\ mainchain_blockchain__proposalBlock_commitTransaction__let_gasBefore_atoms = ["pb.gasPool.Gas() : uint64"]%string
+      /\ kvm__KVM_create__set_maxCodeSizeExceeded_atoms = ["len(ret) : int"]%string
+      /\ kvm__Contract_UseGas__if_c_Gas_lt_gas_atoms = ["c.Gas : uint64"; "gas : uint64"]%string
+      /\ mainchain_kvm__CanTransfer__ret_db_GetBalance_addr__Cmp_amount_ge_0_atoms = ["db.GetBalance(addr).Cmp(amount) : int"]%string).
+
+Lemma C09_source_tie_proof : C09_source_tie_statement.
+Proof.
+  split; [exact C09_source_tie_core_proof|]. split; [exact C09_source_tie_ext_proof|].
+  pose proof src_atoms_ext as H. repeat split; apply H.
 Qed.
